@@ -166,6 +166,15 @@ def const_val(S, f):
     return sc.jv_to_py(unwrap(S, f["t"])["v"])
 
 
+def const_of_text(ft, s):
+    """python twin of BuilderMachine!ConstOfText"""
+    if ft["k"] == "bool":
+        return s == "true"
+    if ft["k"] in ("int", "num"):
+        return 0 if s == "0" else 1 if s == "1" else 2
+    return s
+
+
 def as_struct(S, key, t):
     while True:
         if t["k"] == "ref":
@@ -314,6 +323,9 @@ class Machine:
         for a in asgs:
             key, t = type_at(self.S, self.rk, self.rt, a["path"])
             vt = t if a["m"] == "direct" else unwrap(self.S, t)["t"]
+            ats = self.b["ctor"]["args"] if c["o"] == 0 else self.b["opts"][c["o"] - 1]["args"]
+            if a["src"] > 0 and unwrap(self.S, vt)["k"] == "dunion" and ats[a["src"] - 1]["k"] == "ref" and ats[a["src"] - 1]["name"] in unwrap(self.S, vt)["refs"]:
+                vt = ats[a["src"] - 1]       # the option takes ONE branch of the union
             given = sc.jv_to_py(a["c"]) if a["src"] == 0 else c["as"][a["src"] - 1]
             b = built(self.S, self.D, key, vt, given)
             viol = validate_errs(self.S, vt, given if self.lang == "python" else b)
@@ -445,7 +457,8 @@ def veneer_yaml(entry, pkg):
         elif r["k"] == "merge":
             builders.append("  - merge_into:\n      destination: %s\n      source: %s\n      under_path: %s\n" % (r["obj"], r["field"], ".".join(r["fields"])))
         elif r["k"] == "init":
-            builders.append("  - initialize:\n      by_name: %s\n      set:\n        - {property: %s, value: %s}\n" % (r["obj"], ".".join(r["fields"][1:]), r["fields"][0]))
+            builders.append("  - initialize:\n      by_name: %s\n      set:\n        - {property: %s, value: %s}\n" % (
+                r["obj"], ".".join(r["fields"][1:]), r["fields"][0] if r["fields"][0] != "" else '""'))
         elif r["k"] == "dup":
             options.append("  - duplicate:\n      by_name: %s.%s\n      as: %s\n" % (r["obj"], r["field"], r["fields"][0]))
         elif r["k"] == "renarg":
@@ -490,6 +503,12 @@ def veneer_yaml(entry, pkg):
     return y
 
 
+def _walk_types(t):
+    yield t
+    if t["k"] in ("arr", "map", "nullable"):
+        yield from _walk_types(t["t"])
+
+
 def companion_schema(schema):
     """A second package for the same run: every struct of the entry (but the root) is defined AGAIN under the same bare name
     with a different definition, and a root of its own refers to them. It is never driven; it is there so that whatever
@@ -498,6 +517,21 @@ def companion_schema(schema):
         return {"n": n, "t": t, "req": True, "null": False, "def": {"j": "none"}}
     names = [d["name"] for d in schema["defs"] if d["t"]["k"] == "struct" and d["name"] != schema["root"]]
     defs = [{"name": n, "t": {"k": "struct", "fields": [fld("t", {"k": "str", "mn": 1, "mx": -1}), fld("flag", {"k": "bool"})]}} for n in names]
+
+    def unconstrained(t):
+        t = dict(t)
+        if t["k"] in ("int", "num"):
+            t["lo"], t["hi"] = {"b": "none", "v": 0}, {"b": "none", "v": 0}
+        elif t["k"] == "str":
+            t["mn"], t["mx"] = -1, -1
+        elif t["k"] in ("arr", "map", "nullable"):
+            t["t"] = unconstrained(t["t"])
+        return t
+    # named scalars / collections: the same name, the same shape, WITHOUT the constraints
+    for d in schema["defs"]:
+        if d["t"]["k"] in ("int", "num", "str", "arr", "map") and all(x["k"] != "ref" for x in _walk_types(d["t"])):
+            defs.append({"name": d["name"], "t": unconstrained(d["t"])})
+            names.append(d["name"])
     root = {"name": schema["root"], "t": {"k": "struct", "fields": [fld("x" + n.lower(), {"k": "ref", "name": n}) for n in names]
                                           + [fld("w", {"k": "str", "mn": -1, "mx": -1})]}}
     return {"defs": [root] + defs, "root": schema["root"]}
@@ -1093,6 +1127,12 @@ class Planner:
                 irb = same[self.variant % len(same)]
             if irb["disjunction"]:
                 return {"k": "builder", "builder": self.union_plan(irb, key, t, v)}
+            if t["k"] == "dunion":
+                # the argument is ONE branch of the union (disjunction_as_options): the value names it
+                r = disc_of(self.S, t, v)
+                if r is None:
+                    raise BindError("value of no branch for builder %s" % irb["name"])
+                key, t = r, self.S[r]
             return {"k": "builder", "builder": self.struct_plan(irb, key, t, v)}
         raise BindError("unknown shape %s" % shape)
 
@@ -1152,6 +1192,23 @@ class Planner:
                 if len(hit) == 1 and len(hit[0]["args"]) == 1:
                     calls.append({"opt": self.opt_name(irb, hit[0]), "args": [self.arg(hit[0]["args"][0]["shape"], skey + "." + mk, f["t"], x)]})
                     continue
+                # a list filled by appending options (one per union branch, or one for the element type): one call per element
+                apps = [o for o in (sb["opts"] if sb else []) if len(o["asgs"]) == 1 and o["asgs"][0]["path"] == path and o["asgs"][0]["m"] == "append"]
+                if apps and isinstance(x, list):
+                    et = unwrap(self.S, unwrap(self.S, f["t"])["t"])
+                    for el in x:
+                        so_ = apps[0]
+                        if et["k"] == "dunion":
+                            r_ = disc_of(self.S, et, el)
+                            cand = [o for o in apps if o["args"][0].get("name") == r_]
+                            if not cand:
+                                raise BindError("builder %s: no appending option for branch %s" % (irb["name"], r_))
+                            so_ = cand[0]
+                        io_ = pick_named(irb["options"], so_["name"])
+                        if len(io_) != 1:
+                            raise BindError("builder %s: no option %s" % (irb["name"], so_["name"]))
+                        calls.append({"opt": self.opt_name(irb, io_[0]), "args": [self.arg(io_[0]["args"][0]["shape"], skey + "." + mk, et, el)]})
+                    continue
                 ckey, ct = as_struct(self.S, skey + "." + mk, f["t"])
                 if isinstance(x, dict) and ct["k"] == "struct":
                     # the member's own option was unfolded into options of its fields (struct fields as options)
@@ -1191,6 +1248,9 @@ class Planner:
                     continue
                 fk, ft = type_at(self.S, root_key, self.S[root_key], a["path"])
                 vt = ft if a["m"] == "direct" else unwrap(self.S, ft)["t"]
+                at = so["args"][a["src"] - 1]
+                if vt["k"] == "dunion" and at["k"] == "ref" and at["name"] in vt["refs"]:
+                    vt = at          # the option takes ONE branch of the union: its own argument type says which
                 args[io["argpos"][a["src"]]] = self.arg(io["args"][io["argpos"][a["src"]]]["shape"], fk, vt, c["as"][a["src"] - 1])
                 if a["key"]:
                     args[io["argpos"][a["key"]]] = self.plain(c["as"][a["key"] - 1])
